@@ -831,6 +831,9 @@ class units_iface:
     def ensures(c, cls, result):
         return c.And(result.distinct(), c.forall("j", lambda j: c.Implies(c.And(0 <= j, j < result.len), known_flavour(c, result[j].flavour))))
 
+    def emits_after(c, ctx, outcome, value, cls):
+        ctx.ghost.setdefault("units_results", []).append(value)     # ghost only: which snapshot a caller obtained
+
 
 ServiceRunnerSweep = TObj(RUN + "service:ServiceRunner", _logger=PyLogger, _meta_runner=MetaR, _must_shutdown=TBool(), _is_shutdown=TEvent, running=TEvent, accept_delay=NumFin)
 
@@ -848,6 +851,11 @@ class adopt_services:
 
     def writes(c, self):
         return [("all", "_started", lambda x: True)] + [("all", f, lambda x: True) for f in HEAPS]
+
+    def ensures(c, self):
+        snaps = c.ctx.ghost.get("units_results", [])
+        done = c.loop_done(0)
+        return {"the-cycle-enumerates-ONE-fresh-snapshot-of-the-live-units-and-gives-every-unit-its-iteration": (done == snaps[0].t) if done is not None and len(snaps) == 1 else False}
 
     loops = {
         0: Loop(
